@@ -48,6 +48,45 @@ Definition box_clone_from (self src : box) : M_ box :=
   if len (snd self) =? len (snd src) then ret (fst self, snd src)
   else nb <- box_clone src ;; drop_box self ;;; ret nb.
 
+(* ------------------------------------------------------------------ buffer.rs: pop_zeros as the loop it is, a failing realloc *)
+(** Buffer::pop_zeros: tail_ptr walks down from the last word while the word read is zero.  Every ptr::read must lie inside
+    the allocation (guard 18: 0 <= index < len; index -1 is the word in front of the block), `self.len -= 1` must not
+    underflow (guard 14).  Whether the loop leaves when the length reaches 0 is REGENERATED (gen4_pop_zeros_break).
+    Returns the new length. *)
+Fixpoint pop_loop (fuel : nat) (ws : list Z) (i ln : Z) : M_ Z :=
+  match fuel with
+  | O => fun _ => OutOfFuel
+  | S f =>
+      guard 18 ((0 <=? i) && (i <? len ws)) ;;;
+      if nth (Z.to_nat i) ws 0 =? 0 then
+        guard 14 (1 <=? ln) ;;;
+        let ln' := ln - 1 in
+        if gen4_pop_zeros_break && (ln' =? 0) then ret ln' else pop_loop f ws (i - 1) ln'
+      else ret ln
+  end.
+Definition pop_zeros_asis (ws : list Z) : M_ (list Z) :=
+  if 0 <? len ws then n <- pop_loop (S (length ws)) ws (len ws - 1) (len ws) ;; ret (firstn (Z.to_nat n) ws) else ret ws.
+(** Repr::from_buffer with the scan spelled out *)
+Definition from_buffer_g (b : buffer) : M_ repr := ws <- pop_zeros_asis (bws b) ;; from_buffer w M (setws b ws).
+
+(** Buffer::reallocate_raw when realloc returns null (a growth the allocator cannot satisfy): the old block is still valid
+    and still owned by the Buffer (GlobalAlloc contract); the code panics, unwinding drops the Buffer (its Drop frees the
+    block).  Whether the failure path itself releases the block before panicking is REGENERATED (gen4_realloc_fail_frees). *)
+Definition reallocate_raw_fail (b : buffer) : M_ outcome :=
+  (if gen4_realloc_fail_frees then deallocate_raw (bptr b) (bcap b) else ret tt) ;;;
+  drop_buffer b ;;; ret (Thrown Undocumented).
+(** UBig::set_bit(n) whose growth fails: a heap value with idx >= len asks ensure_capacity(idx + 1) -> reallocate ->
+    reallocate_raw; an inline value asks Buffer::allocate(idx + 1) -> allocate_raw, which panics owning nothing *)
+Definition set_bit_fail (a : targ) (n : Z) : M_ outcome :=
+  match a with
+  | TLarge b =>
+      let idx := n / w in
+      if idx <? len (bws b) then done (set_bit w M a n)
+      else guard 3 (len (bws b) <=? idx + 1) ;;; c <- default_capacity_chk M (idx + 1) ;; reallocate_raw_fail b
+  | TSmall _ | TRefSmall _ => if n <? 2 * w then done (set_bit w M a n) else ret (Thrown Undocumented)
+  | TRefLarge _ => bad 30
+  end.
+
 (* ------------------------------------------------------------------ root_ops.rs *)
 (** leading_zeros() & !1 of the top word *)
 Definition lz_even (top : Z) : Z := 2 * ((w - 1 - Z.log2 top) / 2).
@@ -425,7 +464,8 @@ Inductive op3 :=
 | OIShr (d : nat) (a : opnd) (n : Z)
 | OParse2 (d : nat) (s : sign) (lr : Z) (items : list pitem)
 | OParseN (d : nat) (s : sign) (rpw : Z) (gs : list (option Z))
-| OChunks (d : nat) (k : Z).
+| OChunks (d : nat) (k : Z)
+| OGrowFail (d : nat) (n : Z).
 
 Definition store_opt (d : nat) (s : sign) (o : option repr) (pool : list repr) : M_ (list repr * option reason) :=
   match o with
@@ -466,6 +506,9 @@ Definition step3 (o : op3) (pool : list repr) : M_ (list repr * option reason) :
       let '((s, x), p1) := fetch w (ByVal d) pool in
       r <- chunks_rt (as_borrow x) k ;;
       release x ;;; p <- store d (with_sign r s) p1 ;; ret (p, None)
+  | OGrowFail d n =>
+      let '((_, x), p1) := fetch w (ByVal d) pool in
+      o <- set_bit_fail x n ;; store_out d o p1
   end.
 
 Fixpoint run3 (ops : list op3) (pool : list repr) : M_ (list repr) :=
